@@ -11,7 +11,8 @@
 (*          has_exp, exp]                      the table row exported from MCProxyFix        *)
 (* Verdicts (reject records) only for what C20 states: an unlisted / malformed host is       *)
 (* never accepted, its only failure is the 400 SecurityError, and nothing the client adds    *)
-(* in front of the proxies' values turns a rejection into acceptance.  Everything else       *)
+(* in front of the proxies' values turns a rejection into acceptance - each under every      *)
+(* reading of empty list elements the documentation allows (counted / ignored).  Everything else *)
 (* (which value lands in which environ key, URL texts, access_route, a listed host being     *)
 (* rejected) is reported as drift.                                                           *)
 EXTENDS ProxyFix, TLC, Json, IOUtils
@@ -27,21 +28,22 @@ Sec(r) == r.kind = "exc" /\ r.exc = "SecurityError" /\ r.code = 400
 M(ln) == Out("right", ln.cfg, ln.env, ln.hd)
 Modelled(m) == m.hostp \/ PortModelled(m.sport)
 
-\* The twin run puts `extras` in front of every non-empty X-Forwarded-* list.  The relation "what the
-\* client adds never turns a rejection into acceptance" is claimed when those values lie beyond the
-\* configured count (the proxies' own values are all there) and are plain list items; extras that
-\* carry a quote or backslash can swallow the proxies' values in parse_list_header (the middleware
-\* then sees fewer values than configured and leaves the environ alone) - reported as drift.
+MI(ln) == Out("ignored", ln.cfg, ln.env, ln.hd)      \* the other documented reading of empty list elements
+
+\* The twin run puts `extras` (anything a client can send, quotes and backslashes included) in front of
+\* every non-empty X-Forwarded-* list.  "What the client adds never turns a rejection into acceptance"
+\* is claimed when those values lie beyond the configured count under EVERY reading of empty elements,
+\* i.e. the non-empty values the proxies wrote are all there.
 CountOfH(ln, n) == IF n = "host" THEN ln.cfg.x_host ELSE ln.cfg.x_port
 ProxiesComplete(ln) == \A n \in {"host", "port"} :
-                         LET h == ln.hd[n] IN ~h.p \/ h.text = <<>> \/ Len(ListValues(h.text)) >= CountOfH(ln, n)
-PlainExtras(ln) == \A k \in 1..Len(ln.extras) : \A j \in 1..Len(ln.extras[k]) : ln.extras[k][j] \notin {34, 92}
-TwinClaimed(ln) == ln.has_twin /\ ProxiesComplete(ln) /\ PlainExtras(ln)
+                         LET h == ln.hd[n] IN ~h.p \/ h.text = <<>> \/ Len(ValuesR("ignored", h.text)) >= CountOfH(ln, n)
+TwinClaimed(ln) == ln.has_twin /\ ProxiesComplete(ln)
 
+\* A verdict must hold under every reading the documentation allows: the set of acceptable answers is
+\* the union over the readings (a disagreement between code and table on empty elements alone is drift).
 Security(ln) ==
-  LET m == M(ln)
-      V == EnvVerdicts(ln.tab, m, ln.trusted)
-  IN IF ~Modelled(m) THEN "ok"
+  LET V == AllReadingsVerdicts(ln.tab, ln.cfg, ln.env, ln.hd, ln.trusted)
+  IN IF ~(Modelled(M(ln)) /\ Modelled(MI(ln))) THEN "ok"
      ELSE IF Acc(ln.r) /\ TRUE \notin V THEN "ProxyAcceptsUnlisted"
      ELSE IF (Acc(ln.rurl) \/ Acc(ln.rroot)) /\ (TRUE \notin V \/ ~Acc(ln.r)) THEN "ProxyUrlAcceptsUnlisted"
      ELSE IF V = {FALSE} /\ ~(Sec(ln.r) /\ Sec(ln.rurl) /\ Sec(ln.rroot)) THEN "ProxyNoOtherFailure"
@@ -52,7 +54,8 @@ Scheme3 == <<58, 47, 47>>
 Drift(ln) ==
   LET m == M(ln)
       V == EnvVerdicts(ln.tab, m, ln.trusted)
-  IN IF ln.out # m THEN "ProxySelection"
+  IN IF ln.out # m /\ ln.out = MI(ln) THEN "ProxyEmptyElementsIgnored"
+     ELSE IF ln.out # m THEN "ProxySelection"
      ELSE IF ln.orig # ln.env THEN "ProxyOrig"
      ELSE IF ln.has_exp /\ ln.exp # ln.out THEN "ProxyExport"
      ELSE IF ~Modelled(m) THEN "ProxyUnmodelledPort"
@@ -61,9 +64,8 @@ Drift(ln) ==
      ELSE IF Acc(ln.r) /\ ~(Acc(ln.rurl) /\ Acc(ln.rroot)) THEN "ProxyUrlFailure"
      ELSE IF Acc(ln.r) /\ Acc(ln.rurl) /\ IsAscii(ln.r.v) /\ ln.tab = <<>> /\ ln.rurl.v # LowerS(m.scheme) \o Scheme3 \o ln.r.v \o <<47>> THEN "ProxyHostUrl"
      ELSE IF ln.rremote # m.remote THEN "ProxyRemoteAddr"
-     ELSE IF ln.route # (IF ln.hd.for.p THEN ListValues(ln.hd.for.text) ELSE <<m.remote>>) THEN "ProxyAccessRoute"
+     ELSE IF ln.route # (IF ln.hd.for.p THEN QuotedListValues(ln.hd.for.text) ELSE <<m.remote>>) THEN "ProxyAccessRoute"
      ELSE IF TwinClaimed(ln) /\ Acc(ln.r) # Acc(ln.r2) THEN "ProxyTwinDiffers"
-     ELSE IF ln.has_twin /\ ProxiesComplete(ln) /\ ~PlainExtras(ln) /\ Acc(ln.r) # Acc(ln.r2) THEN "ProxyQuotedClientValueHidesProxyValues"
      ELSE "ok"
 
 Init == l = 1
